@@ -18,11 +18,15 @@ See(p, obs) == seen \o [i \in 1..Len(obs) |-> [p |-> p, k |-> obs[i].k, v |-> ob
 Par(t, k, d) == IF k \in DOMAIN t.params THEN t.params[k] ELSE d
 ScenOf(t) == [src |-> SrcChars(Par(t, "src", "d")), wts |-> WtChars(Par(t, "wts", "w")), own |-> Par(t, "own", "1") = "1"]
 
+\* one Attach / Consume call for several futures is not modelled (M's actions are per future): monitors only
+Modelled(t) == Par(t, "batch", "0") = "0"
+Seed(t) == IF Modelled(t) THEN <<>> ELSE <<[p |-> "root", k |-> "scenario", v |-> "batch"]>>
+
 TInit ==
   /\ TLCSet(1, {}) /\ TLCSet(2, 1) /\ TLCSet(3, {})
   /\ T[1].e = "begin"
   /\ InitScen(ScenOf(T[1]))
-  /\ l = 2 /\ seen = <<>> /\ drift = FALSE
+  /\ l = 2 /\ seen = Seed(T[1]) /\ drift = ~Modelled(T[1])
 
 Conform(t) ==
   /\ Step
@@ -46,7 +50,7 @@ TTime ==
 TDrift ==
   /\ l <= Len(T) /\ T[l].e \in {"op", "time"}
   /\ drift \/ (T[l].e = "op" /\ ~ENABLED Conform(T[l])) \/ (T[l].e = "time" /\ ~ENABLED Timeout)
-  /\ drift' = TRUE /\ NoteDrift(l)
+  /\ drift' = TRUE /\ (IF Len(seen) > 0 /\ seen[1].k = "scenario" THEN TRUE ELSE NoteDrift(l))
   /\ seen' = IF T[l].e = "op" THEN See(T[l].p, T[l].obs) ELSE Append(seen, [p |-> "clock", k |-> "time", v |-> ""])
   /\ UNCHANGED vars
   /\ l' = l + 1 /\ Progress(l')
@@ -61,7 +65,7 @@ TEnd ==
 TBegin ==
   /\ l <= Len(T) /\ T[l].e = "begin"
   /\ ResetScen(ScenOf(T[l]))
-  /\ seen' = <<>> /\ drift' = FALSE
+  /\ seen' = Seed(T[l]) /\ drift' = ~Modelled(T[l])
   /\ l' = l + 1 /\ Progress(l')
 
 TNext == TOp \/ TTime \/ TDrift \/ TEnd \/ TBegin
